@@ -5,10 +5,10 @@ cd "$(dirname "$0")/.."
 a=${1:-10}; b=${2:-20}; wall=${3:-240}
 for s in $(seq $a $b); do
   for p in C16 C17 C04 C18; do
-    VERIF_SEED=$s /venv/bin/python check.py run $p --wall $wall --no-selftest 2>/dev/null | grep -v "^faults\|^probes" | cut -c1-400
+    VERIF_SEED=$s /venv/bin/python check.py run $p --wall $wall --no-selftest 2>/dev/null | grep -E "^(VIOLATION|runs=|HARNESS|KNOWN|  clause)" | cut -c1-500
     rc=${PIPESTATUS[0]}
-    echo "== seed $s $p rc=$rc"
-    if [ $rc -ne 0 ]; then echo "ALARM seed=$s prop=$p"; exit 1; fi
+    echo "== seed $s $p rc=$rc $(date +%H:%M:%S)"
+    if [ $rc -ne 0 ]; then echo "ALARM seed=$s prop=$p"; cp -r replays /tmp/soak_replays_$s_$p 2>/dev/null; exit 1; fi
   done
 done
 echo SOAK-CLEAN $a..$b
